@@ -31,6 +31,8 @@ globals()["map_iter_catch_n4"]._vf.bounds = {"quick": {"N": 4}}
 
 more.register(globals(), {"C05", "C02"}, ["map_in_map"], {"map_in_map": [("_o%d" % k, "omc == %d" % k) for k in range(3)]})
 
+more.register(globals(), {"C05", "C02"}, ["fanout_loop"])
+
 
 # ---------------------------------------------------------------------------
 # One-step kernels (Engine A): the two cooperating sites of the MaxConcurrency batching.  The item array has a
